@@ -10,4 +10,5 @@ CONSTANTS
   JumpMags = {16, 32}
   QStale = FALSE
   QExact0 = TRUE
+  QBackstep = FALSE
 INVARIANTS Bounds Residual WalkerMeaning PathIndependent SmallIsStep
